@@ -3,6 +3,7 @@ package harness
 import (
 	"bytes"
 	"fmt"
+	"time"
 )
 
 // mergeStreams interleaves several frame sequences, preserving each one's internal order.
@@ -57,6 +58,19 @@ func genC05(seed uint64, tier string, idx int) *Plan {
 			for rd := 0; rd < rounds; rd++ {
 				total := 1 + g.r.intn(maxN)
 				fr, tr := g.transferFrames(ci, id, total, 20, g.r.chance(70))
+				if rd < rounds-1 && total >= 2 && g.r.chance(25) {
+					// an abandoned transfer: one packet never arrives; the next transfer of this ID starts afresh
+					k := 1 + g.r.intn(len(fr)-1)
+					drop := fr[k].No
+					var kept []SentFrame
+					for _, f := range fr {
+						if f.No != drop {
+							kept = append(kept, f)
+						}
+					}
+					fr = kept
+					g.p.Faults = append(g.p.Faults, "pkt.loss")
+				}
 				p.Expect.Xfers = append(p.Expect.Xfers, tr)
 				xi := len(p.Expect.Xfers)
 				var withBad []SentFrame
@@ -94,7 +108,25 @@ func genC05(seed uint64, tier string, idx int) *Plan {
 		if g.r.chance(35) {
 			style = "frame" // each packet in its own read: bodies alias the reused read buffer
 		}
-		g.connActor(ci, frames, style, 20)
+		a := g.connActor(ci, frames, style, 20)
+		if g.r.chance(20) {
+			// idle gaps between reads, in total well below the 60 s after which a transfer may be discarded
+			budget := int64(50 * time.Second)
+			var ops []Op
+			for _, op := range a.Ops {
+				if op.K == "send" && op.End && budget > 0 && g.r.chance(25) {
+					d := int64(time.Duration(200+g.r.intn(9000)) * time.Millisecond)
+					if d > budget {
+						d = budget
+					}
+					budget -= d
+					ops = append(ops, Op{K: "sleep", D: d})
+				}
+				ops = append(ops, op)
+			}
+			a.Ops = ops
+			g.p.Faults = append(g.p.Faults, "clock.idle_gaps")
+		}
 	}
 	p.Sched = g.sched()
 	p.MaxStep = 100000
